@@ -208,6 +208,9 @@ var c12Calls = []c12Call{
 	{"map with yielding Stringer elements", func() string {
 		return string(redact.Sprintf("%v", map[string]yieldStr{"k1": {"v1"}, "k2": {"v2"}}))
 	}},
+	{"element safe for two reasons (SafeValue + registered type), then unsafe operands", func() string {
+		return string(redact.Sprintf("%v|%v|%v", []interface{}{dblSafeT(7), map[dblSafeT]int{1: 2}}, "secret", redact.Unsafe(5)))
+	}},
 	// the projections and everything else reachable from a printing call that may set itself up on first use
 	{"Redact/StripMarkers/EscapeMarkers/StringBuilder.String of results", func() string {
 		r := redact.Sprintf("k=%s v=%d", "sec"+mEnd, 7)
@@ -417,6 +420,7 @@ var (
 
 func c12Init() {
 	c12Setup.Do(func() {
+		dblSafeRegister()
 		c12Sched.ch = c12Ch
 		buffer.VerifYield = func() { c12Sched.Point("write") }
 		// references: every call once from a cold pool (always a new printer), no scheduler
